@@ -36,17 +36,20 @@ Definition judge_branch (c : string * option Z * Z * Z * observed) : N :=
   code_of (corr_insn m ops addr o) (prop_branch m reg t addr o).
 
 (* ---- end-to-end relative operands: line (m, ops) at addr, operand i is ORel t / ORelDef t ------ *)
+Definition pre_len (m : string) : nat :=
+  match canon m with Some (_, pre, _) => List.length pre | None => 0%nat end.
+
 Definition prop_relative (m : string) (ops : list operand) (addr : Z) (i : nat) (o : observed) : bool :=
   prop_insn m ops addr o &&
   match o, nth_error ops i with
   | ObsOk ws, Some (ORel t) =>
       match decode ws addr with
-      | Some (_, sops, _) => match nth_error sops i with Some (SRel a) => a =? wrap16 t | _ => false end
+      | Some (_, sops, _) => match nth_error sops (pre_len m + i) with Some (SRel a) => a =? wrap16 t | _ => false end
       | None => false
       end
   | ObsOk ws, Some (ORelDef t) =>
       match decode ws addr with
-      | Some (_, sops, _) => match nth_error sops i with Some (SRelDef a) => a =? wrap16 t | _ => false end
+      | Some (_, sops, _) => match nth_error sops (pre_len m + i) with Some (SRelDef a) => a =? wrap16 t | _ => false end
       | None => false
       end
   | ObsOk _, _ => false
